@@ -95,7 +95,7 @@ def impl_case(case):
         pre = {}
         for idx, (o, ent) in enumerate(zip(case["ops"], impl["trace"][1:])):
             if o["op"] == "cell":
-                stmts = [IMPORT_STMT[nm] for nm in ent["cell"].get("ns_added", []) if nm in IMPORT_STMT]
+                stmts = list(ent["cell"].get("auto_imported", []))
                 if stmts:
                     pre[str(idx)] = stmts
         ref = run_child(case, with_pyflyby=False, pre_imports=pre)
